@@ -301,6 +301,8 @@ class Recorder:
               mock.patch("avocado_i2n.plugins.runner.SpawnerDispatcher", mock.MagicMock()),
               mock.patch.object(m.TestRunner, "run_test_task", run_test_task),
               mock.patch.object(m.TestGraph, "parse_composite_nodes", parse_composite_nodes)]
+        if self.mod is not m.intertest_setup:
+            ps.append(mock.patch("avocado_i2n.plugins.manu.intertest", self.mod))
         if self.spy_update:
             ps += self._update_spies()
         # spies on the tool functions (Manu.run resolves them with getattr at call time)
